@@ -4,13 +4,14 @@ wt="$1"; m="$2"; cd "$wt" || exit 2
 git checkout -q -- . 
 demo=$(ls mutants/${m}_demo.* 2>/dev/null | grep -v '\.o$' | head -1)
 build_demo() {
+  if [ -f mutants/${m}_build.sh ]; then sh mutants/${m}_build.sh >mutants/${m}_build.log 2>&1; return $?; fi
   case "$demo" in
     *.sh) return 0;;
     *.cc|*.cpp) g++ -I. -Isrc "$demo" src/.libs/libzvbi.a -lpthread -lm -lpng -lz -o mutants/${m}_demo_bin 2>mutants/${m}_build.log;;
     *) gcc -I. -Isrc "$demo" src/.libs/libzvbi.a -lpthread -lm -lpng -lz -o mutants/${m}_demo_bin 2>mutants/${m}_build.log;;
   esac
 }
-run_demo() { case "$demo" in *.sh) timeout 300 sh "$demo";; *) timeout 300 ./mutants/${m}_demo_bin;; esac >mutants/${m}_out_$1.log 2>&1; echo $?; }
+run_demo() { case "$demo" in *.sh) timeout 600 sh "$demo";; *) timeout 300 ./mutants/${m}_demo_bin;; esac >mutants/${m}_out_$1.log 2>&1; echo $?; }
 make -j16 >/dev/null 2>&1
 build_demo || { echo "$wt $m: demo build failed (clean)"; exit 1; }
 clean_rc=$(run_demo clean)
